@@ -466,6 +466,24 @@ func (e *Engine) writesOf(c *Ctx, fn *ssa.Function) *WriteSet {
 
 func (e *Engine) contractFor(fn *ssa.Function) *FuncContract {
 	name := FuncName(fn)
+	// a contract for one instantiation of a generic type's method:
+	// pkg.(*T[<type args, module prefix dropped>]).M
+	if recv := fn.Signature.Recv(); recv != nil && fn.Parent() == nil {
+		t, ptr := recv.Type(), ""
+		if pt, ok := t.(*types.Pointer); ok {
+			t, ptr = pt.Elem(), "*"
+		}
+		if nt, ok := t.(*types.Named); ok && nt.TypeArgs().Len() > 0 && nt.Obj().Pkg() != nil {
+			var as []string
+			for i := 0; i < nt.TypeArgs().Len(); i++ {
+				as = append(as, strings.ReplaceAll(types.TypeString(nt.TypeArgs().At(i), nil), modPrefix, ""))
+			}
+			inst := fmt.Sprintf("%s.(%s%s[%s]).%s", nt.Obj().Pkg().Path(), ptr, nt.Obj().Name(), strings.Join(as, ","), fn.Name())
+			if fc, ok := e.CS.Funcs[inst]; ok {
+				return fc
+			}
+		}
+	}
 	if fc, ok := e.CS.Funcs[name]; ok {
 		return fc
 	}
